@@ -235,10 +235,10 @@ htp_status_t htp_gzip_decompressor_decompress(htp_decompressor_t *drec1, htp_tx_
             drec->stream.avail_out = GZIP_BUF_SIZE;
         }
 
-        // Then pass the end-of-data indication on, so that the next layer
-        // is flushed too and the callback sees the end of the body
+        // Then pass the end-of-data indication (or the gap) on, so that the
+        // next layer is flushed too and the callback sees the end of the body
         dout.data = NULL;
-        dout.len = 0;
+        dout.len = d->len;
         if (drec->super.next != NULL && drec->zlib_initialized) {
             return htp_gzip_decompressor_decompress(drec->super.next, &dout);
         } else {
